@@ -367,6 +367,103 @@ example :
       [.ok, .sched none, .sched (some (38, 0)), .sched (some (39, 0)), .ok, .sched none, .sched (some (38, 0))] := by
   decide
 
+/-! ### every scheduled PDU, every history (map edits at any cursor position) -/
+
+theorem head_enabled (m x : Nat) (h : (enabledIdxs m).head? = some x) : bitSet m x = true := by
+  have hm : x ∈ enabledIdxs m := by
+    cases hl : enabledIdxs m with
+    | nil => simp [hl] at h
+    | cons y t => simp [hl] at h; subst h; simp
+  exact ((enabledIdxs_spec m x).mp hm).2
+
+theorem sched_aux (P : Nat → Prop) (s : St)
+    (hstart : ∀ op, startsAdvertising op = true → ∀ ch d, (step s op).2 = .sched (some (ch, d)) → P ch)
+    (r : St × Option (Nat × Nat)) (he : handleTimeout s = some r) (hr : ∀ ch d, r.2 = some (ch, d) → P ch)
+    (op : Op) (ch d : Nat)
+    (h : (step s op).2 = .sched (some (ch, d)) ∨ ∃ acc, (step s op).2 = .recv acc (some (ch, d))) : P ch := by
+  cases op with
+  | llstart =>
+    rcases h with h | ⟨acc, h⟩
+    · exact hstart _ rfl ch d h
+    · simp only [step] at h; split at h <;> simp at h
+  | start =>
+    rcases h with h | ⟨acc, h⟩
+    · exact hstart _ rfl ch d h
+    · simp only [step] at h; split at h <;> (try split at h) <;> simp at h
+  | startn n =>
+    rcases h with h | ⟨acc, h⟩
+    · exact hstart _ rfl ch d h
+    · simp only [step] at h; split at h <;> (try split at h) <;> simp at h
+  | direct a' =>
+    rcases h with h | ⟨acc, h⟩
+    · exact hstart _ rfl ch d h
+    · simp only [step] at h; split at h <;> (try split at h) <;> simp at h
+  | timeout =>
+    simp only [step, he] at h
+    rcases h with h | ⟨acc, h⟩
+    · simp only [Out.sched.injEq] at h
+      exact hr ch d h
+    · simp at h
+  | recv pdu =>
+    simp only [step] at h
+    split at h
+    · rcases h with h | ⟨acc, h⟩ <;> simp at h
+    · split at h
+      · rename_i s' acc' o heq
+        rcases h with h | ⟨acc, h⟩
+        · simp at h
+        · simp only [Out.recv.injEq] at h
+          simp only [handleReceive, he] at heq
+          split at heq
+          · simp only [Option.some.injEq, Prod.mk.injEq] at heq
+            rw [← heq.2.2] at h; simp at h
+          · simp only [Option.map_some, Option.some.injEq, Prod.mk.injEq] at heq
+            rw [← heq.2.2] at h
+            exact hr ch d h.2
+      · rcases h with h | ⟨acc, h⟩ <;> simp at h
+  | add x => simp only [step] at h; rcases h with h | ⟨acc, h⟩ <;> (split at h <;> (try split at h) <;> simp at h)
+  | remove x => simp only [step] at h; rcases h with h | ⟨acc, h⟩ <;> (split at h <;> (try split at h) <;> simp at h)
+  | interval ms => simp only [step] at h; rcases h with h | ⟨acc, h⟩ <;> (split at h <;> simp at h)
+  | stop => simp only [step] at h; rcases h with h | ⟨acc, h⟩ <;> (split at h <;> simp at h)
+  | llstop => simp [step] at h
+  | dirty => simp [step] at h
+  | change t => simp only [step] at h; rcases h with h | ⟨acc, h⟩ <;> (split at h <;> (try split at h) <;> (try split at h) <;> simp at h)
+  | localAddr x => simp [step] at h
+  | filter b => simp [step] at h
+  | wladd x => simp [step] at h
+  | wlremove x => simp [step] at h
+  | scanfilter b => simp [step] at h
+  | scanreq pdu => simp only [step] at h; rcases h with h | ⟨acc, h⟩ <;> (split at h <;> simp at h)
+
+/-- **C24, never on a disabled channel — every step, every history.**  In every reachable state (any
+    history of map edits, at any position of the channel cursor: between the PDUs of an event, after stop,
+    after count exhaustion, before a restart, also edits the documentation calls unsupported) with a
+    non-empty map: whichever call hands an advertising PDU to the radio — (re)start, `handle_adv_timeout`,
+    `handle_adv_receive` that does not accept — the PDU goes to a channel that is enabled at that moment. -/
+theorem scheduled_channel_enabled (c : Cfg) (a : Nat) (ops : List Op) (op : Op) (ch d : Nat)
+    (hm : effMap (finalState (init c a) ops) ≠ 0)
+    (h : (step (finalState (init c a) ops) op).2 = .sched (some (ch, d))
+      ∨ ∃ acc, (step (finalState (init c a) ops) op).2 = .recv acc (some (ch, d))) :
+    37 ≤ ch ∧ bitSet (effMap (finalState (init c a) ops)) (ch - 37) = true := by
+  obtain ⟨r, he, _, hr⟩ := timeout_channel_successor c a ops hm
+  refine sched_aux (fun ch => 37 ≤ ch ∧ bitSet (effMap (finalState (init c a) ops)) (ch - 37) = true) _ ?_ r he ?_ op ch d h
+  · intro op hop ch d ho
+    obtain ⟨_, h37, hh, _, _⟩ := (start_on_lowest c a ops op hop).2 hm ch d ho
+    exact ⟨h37, head_enabled _ _ hh⟩
+  · intro ch d h'
+    obtain ⟨h1, _, h3, _⟩ := hr ch d h'
+    exact ⟨h1, h3⟩
+
+/-- non-vacuity: map {37, 38}, PDUs on 37 and 38, `add 39` in the middle of the running event: the code
+    rewinds to the lowest channel, the next PDUs go to 38 (again), 39, 37 — all enabled (the order inside the
+    event that was running is not preserved: edits while advertising are documented as unsupported) -/
+example :
+    let c : Cfg := { varMap := true, varInterval := false, fixedMs := 30, autoStart := true, types := [.undirected] }
+    ((run (init c 1) [.remove 39, .llstart, .timeout, .add 39, .timeout, .timeout, .timeout]).map (·.2)) =
+      [.ok, .sched (some (37, 0)), .sched (some (38, 0)), .ok, .sched (some (38, 0)), .sched (some (39, 0)),
+       .sched (some (37, 37000))] := by
+  decide
+
 /-! ### start / stop / count -/
 
 def pduOf : Out → Nat
